@@ -130,6 +130,14 @@ Proof.
 Qed.
 Print Assumptions C10_code_orders_are_ledger_orders.
 
+(* the three *_utxo entry points of TxInputsBuilder register an input exactly when the UTxO's address is locked the way the entry
+   point says (script witness <-> script payment credential; regular <-> key credential or Byron), for all 9 address kinds; a
+   refused call registers nothing (ops_in / ops_col count it as no call), so no redeemer can point at such an input *)
+Theorem C10_utxo_entry_points : forall (e : utxo_entry) (a : addr_kind) (h : bytes) (o : outpoint) (rid : N),
+  utxo_effect e a h o rid = ledger_utxo_effect e a h o rid.
+Proof. exact utxo_effect_ledger. Qed.
+Print Assumptions C10_utxo_entry_points.
+
 (* the executable judge of the correspondence run is sound: "holds" on (calls, built transaction)
    implies the statement for that transaction; a known-finding verdict only arises inside its class *)
 Theorem C10_judge_sound : forall (ops : list op) (b : built), judge ops b = Holds -> C10_statement ops b.
